@@ -144,6 +144,9 @@ func c10Jobs(thorough bool) []json.RawMessage {
 			if thorough || sc.N*sc.M <= 2 {
 				kinds = append(kinds, c10.AOkCloseCap, c10.AChunkedCut) // spelling / framing variants: on the two-call scenarios in the quick tier
 			}
+			if thorough || (sc.N*sc.M <= 2 && !sc.Wait) {
+				kinds = append(kinds, c10.AOkCloseSplit, c10.AEarlyHints) // quick tier: on the plain two-call scenario
+			}
 			for _, a := range kinds {
 				p := append([]int{}, ok...)
 				p[i] = a
